@@ -20,7 +20,7 @@ func TestMain(m *testing.M) { ev.Main(m, "C01") }
 // outstanding promise is called.
 func TestPromiseExactlyOnce(t *testing.T) {
 	rapid.Check(t, func(rt *rapid.T) {
-		plan := wl.GenProdPlan(rt, wl.ProdFocus{})
+		plan := wl.GenProdPlan(rt, wl.ProdFocus{MutateInPromise: true})
 		var o *wl.ProdObs
 		bubble.Run(t, rt, func(e *bubble.Env) {
 			o = wl.RunProd(e, plan)
@@ -32,6 +32,9 @@ func TestPromiseExactlyOnce(t *testing.T) {
 			ev.Class("path:" + k)
 		}
 		ev.Class("final:" + plan.Final)
+		if plan.Cfg.MutatePromise {
+			ev.Class("promise-recycles-record")
+		}
 		if o.InflightAtFailure {
 			ev.Class("failure-while-buffered")
 		}
